@@ -33,6 +33,13 @@ def pair_case(a, b):
         # source tokens (not macro-made) around an empty expansion, and a line break inside the arguments of one invocation
         uses += ['10: %s%sEMPTY%s%s' % (ta, ' ' if wa else '', ' ' if wb else '', tb), '11: ID(%s\n%s)' % (ta, tb), '12: TWO(%s\n,\n%s)' % (ta, tb), '13: ID(x %s\n%s y)' % (ta, tb),
                  '14: %s%sID()%s%s' % (ta, ' ' if wa else '', ' ' if wb else '', tb)]
+    if ta not in (',', '(', ')') and tb not in (',', '(', ')'):
+        # invocations whose parentheses stand on other lines than the macro name: the expansion belongs where the name stood (a # that comes
+        # out of it mid-line must not end up at the start of a line of the output, where it would be read as a directive)
+        sp = ' ' if (wa and wb) or True else ''
+        uses += ['15: x ID(%s%s%s\n) y' % (ta, sp, tb), '16: x ID\n(%s%s%s) y' % (ta, sp, tb), '17: x TWO(%s,\n%s\n) y' % (ta, tb) if tb != '#' else '17: x TWO(%s,\nz %s\n) y' % (ta, tb),       # a # first on a line inside the arguments would be undefined (C11 6.10.3p11)
+                 '18: x ID(ID(%s%s%s\n)\n) y' % (ta, sp, tb),
+                 '19: x ID(\n) %s%s%s ID(\n\n) y' % (ta, sp, tb)]
     if ta in ('#', '##') or tb in ('#', '##'):
         lines = [l for l in lines if 'PA' not in l.split(' ')[1:2] or True]
     return '\n'.join(lines + uses) + '\n'
@@ -184,4 +191,4 @@ def run(ctx):
             ctx.violation('C19|roundtrip|%s|%s' % (name, res), '%s: %s' % (name, detail.decode('utf-8', 'replace')[:300]),
                           script='$CHIBICC -E -o x.i.c %s -I$(dirname $CHIBICC)/test && $CHIBICC -S -o x2.s x.i.c && exit 0; exit 1' % name)
     ctx.sample({'pair_case': cases[5][0]})
-    ctx.extra['exhaustive_subspaces'] = ['all %d ordered pairs of %d token classes x 9 adjacency constructions' % (len(pairs), len(CLASSES))]
+    ctx.extra['exhaustive_subspaces'] = ['all %d ordered pairs of %d token classes x up to 19 adjacency constructions' % (len(pairs), len(CLASSES))]
